@@ -106,6 +106,15 @@ def h_step(p):
         old.module = types.SimpleNamespace(_modified_time=SymInt(t_c))
         lk._collection["u"] = old
     res = exc = None
+    if p.choose(2, "api") == 1:
+        # has_template as the operation on the arbitrary state: it answers, it does not raise lookup exceptions
+        hv = hexc = None
+        try:
+            hv = lk.has_template("u")
+        except Exception as e:
+            hexc = e
+        return dict(api="has_template", hv=hv, hexc=hexc, is_cached=is_cached, checks=checks, cdir=cdir, lru=use_lru, lk=lk,
+                    sym=dict(exists=exists, m=m, ver=ver, t_c=t_c, v_c=v_c, now=now, w=w, link=link, lm=lm))
     try:
         res = lk.get_template("u")
     except Exception as e:
@@ -144,6 +153,8 @@ def on_step(p, r, exc, acc):
         acc.candidate(kind="harness-exception", input=None, detail=repr(exc)[:300])
         return
     y = r["sym"]
+    if r.get("api") == "has_template":
+        return on_has(p, r, acc)
     res, e, old, cdir = r["res"], r["exc"], r["old"], r["cdir"]
     kind = ("cached" if r["is_cached"] else "uncached", "checks" if r["checks"] else "nochecks",
             type(e).__name__ if e else ("same" if res is old else "new"))
@@ -213,6 +224,44 @@ def on_step(p, r, exc, acc):
     acc.sample(desc(m))
 
 
+def on_has(p, r, acc):
+    y, cdir = r["sym"], r["cdir"]
+    acc.tags["has_template"] += 1
+    m = p.witness()
+    ev = lambda mod, t: str(mod.eval(t, model_completion=True))
+
+    def desc(mod):
+        return dict(api="has_template", cached=r["is_cached"], filesystem_checks=r["checks"], cached_dir=cdir, t_compiled=ev(mod, y["t_c"]), now=ev(mod, y["now"]),
+                    dirs=[dict(exists=ev(mod, y["exists"][i]), mtime=ev(mod, y["m"][i]), written=ev(mod, y["w"][i]), version=ev(mod, y["ver"][i]),
+                               symlink=ev(mod, y["link"][i]), link_mtime=ev(mod, y["lm"][i])) for i in range(NDIRS)],
+                    cached_version=ev(mod, y["v_c"]), outcome=repr(r["hv"]) if r["hexc"] is None else type(r["hexc"]).__name__)
+
+    acc.vcs += 2
+    acc.counts["has_template %s -> %s" % ("cached" if r["is_cached"] else "uncached", desc(m)["outcome"])] += 1
+    if r["lk"]._mutex.locked():
+        acc.candidate(kind="mutex-left-locked", input=desc(m), detail="after has_template")
+    if r["hexc"] is not None:
+        if isinstance(r["hexc"], EXC.TemplateLookupException):
+            acc.candidate(kind="has_template-raises", input=desc(m), detail="%s: %s" % (type(r["hexc"]).__name__, r["hexc"]))
+        elif not isinstance(r["hexc"], (EXC.CompileException, OSError)):
+            acc.candidate(kind="undocumented-exception", input=desc(m), detail=repr(r["hexc"])[:200])
+        return
+    if r["is_cached"] and not r["checks"]:
+        want = z3.BoolVal(True)
+    elif r["is_cached"]:
+        want = y["exists"][cdir]
+    else:
+        want = z3.Or(*y["exists"])
+    st, mod = p.vc(want == z3.BoolVal(bool(r["hv"])))
+    if st == "fails":
+        acc.candidate(kind="has_template-wrong-answer", input=desc(mod), detail="answered %r" % r["hv"])
+    elif st == "unknown":
+        acc.vcs_unknown += 1
+    if type(r["hv"]) is not bool:
+        acc.candidate(kind="has_template-wrong-answer", input=desc(m), detail="not a bool: %r" % (r["hv"],))
+    acc.sample(desc(m))
+
+
 def h_put(p):
     """put_string / put_template entries are served under their URI, whatever the file system says"""
     checks = p.fork(p.new_bool("fs_checks"))
@@ -260,7 +309,7 @@ def on_put(p, r, exc, acc):
 
 
 # ------------------------------------------------------------------ LRU inductive step
-def h_lru(cap, k):
+def h_lru(cap, k, ordered=False):
     def h(p):
         ticks = []
 
@@ -279,8 +328,11 @@ def h_lru(cap, k):
             it = UT.LRUCache._Item.__new__(UT.LRUCache._Item)
             it.key, it.value = "k%d" % i, "v%d" % i
             t = p.new_real("ts%d" % i)
-            for s in stamps:
-                p.assume(t != s)
+            if ordered and stamps:
+                p.assume(t > stamps[-1])        # entries are interchangeable: name them in stamp order (symmetry reduction)
+            else:
+                for s in stamps:
+                    p.assume(t != s)
             stamps.append(t)
             it.timestamp = SymInt(t)
             dict.__setitem__(c, it.key, it)
@@ -340,7 +392,27 @@ print("counterexample state:", CASE)
 from mako.lookup import TemplateLookup
 from mako import util
 bad = None
-if KIND.startswith("put"):
+if KIND.startswith("has_template"):
+    base = tempfile.mkdtemp(prefix="c14replay")
+    try:
+        d0, d1 = os.path.join(base, "d0"), os.path.join(base, "d1")
+        os.makedirs(d0); os.makedirs(d1)
+        lk = TemplateLookup([d0, d1], filesystem_checks=CASE["filesystem_checks"])
+        if CASE["cached"]:
+            f = os.path.join([d0, d1][CASE["cached_dir"]], "u")
+            open(f, "w").write("old"); lk.get_template("u"); os.remove(f)
+        for i, dd in enumerate((d0, d1)):
+            if CASE["dirs"][i]["exists"] == "True": open(os.path.join(dd, "u"), "w").write("x")
+        present = any(os.path.exists(os.path.join(dd, "u")) for dd in ((d0, d1) if not CASE["cached"] else ([d0, d1][CASE["cached_dir"]],)))
+        try:
+            got = lk.has_template("u")
+            print("has_template ->", got, " file present:", present)
+            if CASE["filesystem_checks"] and got is not present: bad = "has_template answered %%r" %% got
+        except Exception as e:
+            print("has_template raised", type(e).__name__, e); bad = "has_template raised %%s" %% type(e).__name__
+    finally:
+        shutil.rmtree(base, ignore_errors=True)
+elif KIND.startswith("put"):
     lk = TemplateLookup(filesystem_checks=CASE["filesystem_checks"], collection_size=2 if CASE["bounded"] else -1)
     from mako.template import Template
     if CASE["api"] == "put_string":
@@ -441,12 +513,19 @@ def run(check, tier):
              dict(directories=NDIRS, flags="cached, filesystem_checks, exists per dir, compiles, symlink per dir, LRU/plain collection"),
              ("cached", "uncached", "reload"))]
     jobs.append(("C14-put", h_put, on_put, "put_string / put_template entries served under their URI", dict(), ("ran",)))
-    caps = {"quick": (1, 2), "thorough": (1, 2, 4)}[tier]
+    caps = {"quick": (1, 2, 3), "thorough": (1, 2, 3, 4)}[tier]
     for cap in caps:
         for k in range(0, int(cap * 1.5) + 2):
             jobs.append(("C14-lru-%d-%d" % (cap, k), h_lru(cap, k), on_lru,
                          "LRUCache(capacity %d): insert into an arbitrary state of %d entries (optionally after one fetch)" % (cap, k),
                          dict(capacity=cap, entries=k), ("ran",)))
+    # larger capacities with the entries named in stamp order (they are interchangeable, so nothing is lost): the states
+    # around the eviction threshold capacity * 1.5, which is not an integer for odd capacities
+    for cap in {"quick": (5, 7), "thorough": (5, 6, 7, 8, 9, 11, 12, 15, 16)}[tier]:
+        for k in range(cap, int(cap * 1.5) + 2):
+            jobs.append(("C14-lruo-%d-%d" % (cap, k), h_lru(cap, k, True), on_lru,
+                         "LRUCache(capacity %d): insert into an arbitrary stamp-ordered state of %d entries (optionally after one fetch)" % (cap, k),
+                         dict(capacity=cap, entries=k, symmetry="entries named in stamp order"), ("ran",)))
     for j in jobs:
         driver.register(j[0], j[1], j[2])
     cands = []
